@@ -218,7 +218,7 @@ def file_class(path: str, mode: str) -> str:
     return "reexport_stub"
 
 
-FAULT_OPS = ("mkdir", "os_open", "utime", "open", "write", "close")
+FAULT_OPS = ("mkdir", "os_open", "utime", "open", "write", "close", "replace", "rename", "unlink")
 
 
 def fault_strata(ref_events: list[dict]) -> dict[str, list[dict]]:
@@ -248,6 +248,9 @@ def fault_strata(ref_events: list[dict]) -> dict[str, list[dict]]:
                 pending_mkdirs.remove(m)
         elif op in ("write", "close") and e.get("file") in files:
             files[e["file"]]["events"].setdefault(op, []).append(e)
+        elif op in ("replace", "rename", "unlink", "remove") and e.get("path") in by_path_latest:
+            # a file this run wrote is renamed / removed afterwards (write-to-temporary-then-rename protocols)
+            files[by_path_latest[e["path"]]]["events"].setdefault("unlink" if op == "remove" else op, []).append(e)
     strata: dict[str, list[dict]] = {}
     for k in order:
         f = files[k]
@@ -258,7 +261,7 @@ def fault_strata(ref_events: list[dict]) -> dict[str, list[dict]]:
 def pick_fault_event(r, strata: dict[str, list[dict]]) -> dict | None:  # noqa: ANN001
     """Stratified choice: file class (the API file weighted up: it is the one large, buffered write), then a
     file of that class, then a step of its life cycle; for writes the first, a middle or the last one."""
-    classes = sorted(c for c in strata if c != "other") or sorted(strata)
+    classes = sorted(strata)  # incl. "other": files that are neither stubs nor the API file (temporary files, lock files ...)
     if not classes:
         return None
     weights = [3.0 if c == "api_json" else 1.0 for c in classes]
@@ -277,7 +280,7 @@ def pick_fault_event(r, strata: dict[str, list[dict]]) -> dict | None:  # noqa: 
 
 def pick_fault_event_for_op(r, strata: dict[str, list[dict]], op: str) -> dict | None:  # noqa: ANN001
     """Like pick_fault_event, but the life-cycle step is given (used to cover every (op, kind) pair in a batch)."""
-    cands = [(cls, f) for cls in sorted(strata) if cls != "other" for f in strata[cls] if f["events"].get(op)]
+    cands = [(cls, f) for cls in sorted(strata) for f in strata[cls] if f["events"].get(op)]
     if not cands:
         return None
     weights = [1.0 / max(1, len(strata[cls])) for cls, _f in cands]  # uniform over file classes, then over files
